@@ -250,6 +250,12 @@ pub fn oods_binding(ctx: &mut Ctx) {
                 ctx.violation(&format!("C01|oods-binding|unbound|{layout}|{kind}"), &format!("{short}: with every prover message and challenge of the recorded run kept, changing {} of the statement still passes the out-of-domain check: the AIR does not bind it", f.path()), rep);
             }
         }
+        let mine = ctx.mine(unit);
+        unit += 1;
+        if mine {
+            ctx.begin_run(scenario, unit);
+            free_product_pages(ctx, scenario, &path, &layout, &proof, &pi_img, &short);
+        }
     }
 }
 
@@ -370,6 +376,80 @@ pub fn replay_public_memory(rep: &serde_json::Value) -> Result<(bool, String), S
     let img2 = proofrun::apply_faults(&img, &faults).ok_or("faults do not apply")?;
     let got2 = ratio_of(&img2, z, alpha, column);
     Ok((got2 == base, format!("{got2:?}")))
+}
+
+/// (z, alpha) of the memory argument as the verifier derives them for the recorded run.
+fn memory_challenges<L: LayoutTrait>(proof: &StarkProof) -> Option<(Felt, Felt)>
+where
+    L::InteractionElements: serde::Serialize,
+{
+    let r = std::panic::catch_unwind(std::panic::AssertUnwindSafe(|| {
+        let digest = proof.public_input.get_hash(proof.config.n_verifier_friendly_commitment_layers);
+        let mut t = Transcript::new(digest);
+        let traces = L::traces_commit(&mut t, &proof.unsent_commitment.traces, proof.config.traces.clone());
+        serde_json::to_value(&traces.interaction_elements).ok()
+    }));
+    let v = r.ok().flatten()?;
+    Some((image::felt_of(&v["memory_multi_column_perm_perm_interaction_elm"])?, image::felt_of(&v["memory_multi_column_perm_hash_interaction_elm0"])?))
+}
+
+fn verify_pi_alone<L: LayoutTrait>(pi: &PublicInput) -> Outcome {
+    monitor::guarded(50_000_000, || L::verify_public_input(pi)).outcome
+}
+
+/// A continuous page carries a product the verifier cannot recompute and the digest does not
+/// cover: with it a prover can cancel any change of the main page after the memory challenges
+/// are known. The statement-level guard (`verify_public_input`) therefore has to refuse every
+/// statement with such a page, also an empty one.
+fn free_product_pages(ctx: &mut Ctx, scenario: &str, path: &str, layout: &str, proof: &StarkProof, pi_img: &serde_json::Value, short: &str) {
+    let Some((z, alpha)) = crate::with_layout!(layout, memory_challenges, proof) else { return };
+    let n_cells = pi_img["main_page"].as_array().map(|a| a.len()).unwrap_or(0);
+    if n_cells == 0 {
+        return;
+    }
+    let i = n_cells - 1; // an output cell (the last cell of the page)
+    let (Some(a), Some(v)) = (image::felt_of(&pi_img["main_page"][i]["address"]), image::felt_of(&pi_img["main_page"][i]["value"])) else { return };
+    let (f_old, f_new) = (z - (a + alpha * v), z - (a + alpha * (v + Felt::ONE)));
+    if f_old == Felt::ZERO || f_new == Felt::ZERO {
+        return;
+    }
+    for size in [0u64, 1] {
+        // the page's own cells would add `size` to the length: the padding power changes by the
+        // same count, which the prover compensates in `prod` as well
+        let pad = z - (image::felt_of(&pi_img["padding_addr"]).unwrap_or(Felt::ZERO) + alpha * image::felt_of(&pi_img["padding_value"]).unwrap_or(Felt::ZERO));
+        let prod = f_old * crate::models::inv(f_new) * pad.pow(size as u128);
+        let faults = vec![
+            Fault::Set { path: format!("main_page[{i}].value"), value: image::felt_hex(&(v + Felt::ONE)) },
+        ];
+        let Some(mut img) = proofrun::apply_faults(pi_img, &faults) else { continue };
+        img["continuous_page_headers"] = json!([{"start_address": image::felt_hex(&Felt::from(1u64 << 40)), "size": image::felt_hex(&Felt::from(size)), "hash": "0x0", "prod": image::felt_hex(&prod)}]);
+        let Ok(pi) = serde_json::from_value::<PublicInput>(img.clone()) else { continue };
+        let o = crate::with_layout!(layout, oods_with_statement, proof, &pi);
+        ctx.stats.evaluations += 1;
+        if !o.is_accept() {
+            ctx.stats.probe("free-product-page:compensation-did-not-pass-oods");
+            continue;
+        }
+        ctx.stats.probe("free-product-page:passes-oods");
+        let g = crate::with_layout!(layout, verify_pi_alone, &pi);
+        ctx.stats.evaluations += 1;
+        ctx.stats.fired("statement-after-proof:free-product-page");
+        ctx.stats.state(format!("{layout}|oods-binding|free-product-page:{size}|{}", g.class()));
+        if !g.is_reject() {
+            let rep = replay_envelope("C01", scenario, &ctx.variant, json!({"call": "free-product-page", "file": path, "statement": img, "expect": "reject"}));
+            ctx.violation(&format!("C01|oods-binding|free-product-page|{layout}"), &format!("{short}: a statement whose last output cell is changed and cancelled by a continuous page of size {size} with a chosen product passes the out-of-domain check, and verify_public_input answers {}", g.describe()), rep);
+        }
+    }
+}
+
+pub fn replay_free_product_page(rep: &serde_json::Value) -> Result<(bool, String), String> {
+    let l = stone_loader::load_file(rep["file"].as_str().ok_or("file")?)?;
+    let proof: StarkProof = serde_json::from_value(l.proof.clone()).map_err(|e| e.to_string())?;
+    let pi: PublicInput = serde_json::from_value(rep["statement"].clone()).map_err(|e| e.to_string())?;
+    let layout = l.layout.clone();
+    let o: Outcome = crate::with_layout!(layout.as_str(), oods_with_statement, &proof, &pi);
+    let g: Outcome = crate::with_layout!(layout.as_str(), verify_pi_alone, &pi);
+    Ok((o.is_accept() && !g.is_reject(), format!("oods {} / verify_public_input {}", o.class(), g.describe())))
 }
 
 pub fn replay_oods_binding(rep: &serde_json::Value) -> Result<(bool, String), String> {
